@@ -99,7 +99,7 @@ var hangs int32
 // run executes one scenario line; ok=false means the worker hung or died and must be replaced.
 func (w *worker) run(line string) (lines []string, ok bool) {
 	if _, err := io.WriteString(w.in, line+"\n"); err != nil {
-		return []string{"hang"}, false
+		return []string{"crash"}, false
 	}
 	type res struct {
 		lines []string
@@ -119,7 +119,9 @@ func (w *worker) run(line string) (lines []string, ok bool) {
 				ls = append(ls, l)
 			}
 			if err != nil {
-				ch <- res{append(ls, "hang"), false}
+				// the pipe closed: the worker was killed after the time limit (see below) or died by itself
+				// (a crash of the module system: fatal error, unrecovered panic)
+				ch <- res{ls, false}
 				return
 			}
 		}
@@ -132,13 +134,14 @@ func (w *worker) run(line string) (lines []string, ok bool) {
 	case r := <-ch:
 		if !r.ok {
 			atomic.AddInt32(&hangs, 1)
+			return append(r.lines, "crash"), false
 		}
-		return r.lines, r.ok
+		return r.lines, true
 	case <-time.After(limit):
 		atomic.AddInt32(&hangs, 1)
 		w.kill()
 		r := <-ch
-		return r.lines, false
+		return append(r.lines, "hang"), false
 	}
 }
 
@@ -197,6 +200,9 @@ var eventWords = map[string]bool{"call": true, "ret": true, "beg": true, "end": 
 func (e *execT) Do(line string) string {
 	if strings.HasPrefix(line, "hang") {
 		return "HANG"
+	}
+	if strings.HasPrefix(line, "crash") {
+		return "CRASH"
 	}
 	// malformed stream: what is not a well-formed scenario / recorded event is not interpreted
 	if strings.HasPrefix(line, "scn") {
@@ -583,7 +589,7 @@ func generate(r *hxlib.Run, emit func(hxlib.Case)) {
 					r.Count("event:" + strings.Join(strings.Fields(l)[:2], "-"))
 				case strings.HasPrefix(l, "ret "):
 					r.Count("event:" + strings.ReplaceAll(l, " ", "-"))
-				case strings.HasPrefix(l, "hang"), strings.HasPrefix(l, "bad-"):
+				case strings.HasPrefix(l, "hang"), strings.HasPrefix(l, "crash"), strings.HasPrefix(l, "bad-"):
 					r.Count("event:" + strings.Fields(l)[0])
 				}
 			}
